@@ -102,7 +102,7 @@ func cmdCheck(args []string) {
 	var reps []*FuncReport
 	var missing []string
 	byName := map[string]*FuncInfo{}
-	for _, fi := range prog.funcs {
+	for _, fi := range prog.allFuncs() {
 		byName[prog.displayName(fi)] = fi
 	}
 	for _, fn := range spec.Functions {
